@@ -211,7 +211,18 @@ def impl_build():
         if r1.returncode != 0:
             return False, r1.stderr
         env = dict(ENV, CARGO_TARGET_DIR=os.path.join(CACHE, "vh-target"))
-        r2 = run(["cargo", "build", "--offline"], cwd=os.path.join(VERIF, "harness"), env=env, text=True)
+        hdir = os.path.join(VERIF, "harness")
+        if REPO != "/repo":
+            # an alternative source tree (seeded-change runs): the harness depends on it by path
+            hdir = os.path.join(CACHE, "harness-alt")
+            shutil.rmtree(hdir, ignore_errors=True)
+            shutil.copytree(os.path.join(VERIF, "harness"), hdir, ignore=shutil.ignore_patterns("target"))
+            ct = os.path.join(hdir, "Cargo.toml")
+            with open(ct) as f:
+                txt = f.read().replace('path = "/repo"', f'path = "{REPO}"')
+            with open(ct, "w") as f:
+                f.write(txt)
+        r2 = run(["cargo", "build", "--offline"], cwd=hdir, env=env, text=True)
         if r2.returncode != 0:
             return False, r2.stderr
     return True, ""
